@@ -130,6 +130,9 @@ def gen_cases(ctx):
                     c['shape'] = [2, 2]; c['pop_ids'] = ['A', 'B b']
                 c['x_from'] = rng.choice(['attr', 'explicit'])
                 c['mask_corners'] = rng.random() < 0.7
+            for cs in c['coefs']:
+                if cs[0] == 0:          # see above: keep the zero-spacing value off the discontinuity of the fallback test
+                    cs[0] = 0.5
             if not c['via_log_func'] and rng.random() < 0.35 and k > 1:
                 c['fail_mag'] = rng.choice([1, 0.5, 0.1, 0.01, 0.001])
             cases.append(c); cid += 1
